@@ -65,7 +65,12 @@ def check(ctx):
         if close == 'bad':
             continue
         if close is None:
-            ctx.undecided('C11.S1', '_normalise_weights branches on whether the gross exposure is ~0', fn.site(), cond_str(p)[:200])
+            from ..lib import read_marker
+            unread_p = not read_marker(ctx, p) or any(s_[0] == 'call' and s_[1][0] == 'ext' and s_[1][1].startswith('numpy.') and s_[1][1] not in ('numpy.isclose', 'numpy.abs', 'numpy.absolute')
+                                                      for t_ in [p.value or T.ZERO] + [c_ for c_, _, _ in p.conds] for s_ in T.subterms(t_))
+            if unread_p:
+                ctx.undecided('C11.S1', '_normalise_weights branches on whether the gross exposure is ~0', fn.site(), cond_str(p)[:200])
+            # (a path that was read and simply does not test the exposure contributes no case: see 'both scaling cases exist')
             continue
         seen.add(close)
         if close:
@@ -80,7 +85,11 @@ def check(ctx):
                 sums = [s for s in T.subterms(val) if gross_sum(s)]
                 ok = len(set(sums)) == 1 and T.teq(val, T.t_div(T.t_mul(wv, A('self', 'gross_leverage')), sums[0]))
             ctx.require(ok, 'C11.S1', 'weights are scaled by leverage / sum(|w|)', fn.site(), fmt(v)[:200], key='C11.S1|scale')
-    ctx.require(seen == {True, False}, 'C11.S1', 'both scaling cases exist', fn.site(), sorted(map(str, seen)), key='C11.S1|cases')
+    n_und = len([o_ for o_ in ctx.obligations if o_['verdict'] == 'UNDECIDED' and o_['rule'] == 'C11.S1'])
+    if seen != {True, False} and n_und:
+        ctx.undecided('C11.S1', 'both scaling cases exist', fn.site(), 'some paths of _normalise_weights were not read (see above)')
+    else:
+        ctx.require(seen == {True, False}, 'C11.S1', 'both scaling cases exist', fn.site(), sorted(map(str, seen)), key='C11.S1|cases')
     # ---- S2 truncation toward zero, formula
     ps, sp = sizing_paths(ctx, CN)
     ctx.floor('C11.S2', 'sizing paths of the long/short sizer', len(sp), 2)
@@ -183,6 +192,9 @@ def check(ctx):
                 ctx.require(nan is False, 'C11.S3', 'the division by the price happens only after the NaN check passed', lp.site, cond_str(bp)[:120], key='C11.S3|nan-dominates')
         ctx.require(seen_raise, 'C11.S3', 'an unavailable (NaN) price is rejected with ValueError', lp.site, key='C11.S3|nan-raise')
         wsrc = uncopy(wsrc)
+        if wsrc is None or fmt(wsrc) == 'None' or any(s_[0] == 'call' and s_[1][0] == 'ext' and (s_[1][1].startswith('numpy.') or s_[1][1] in ('ZIP', 'DIVZERO')) for s_ in T.subterms(wsrc)):
+            ctx.undecided('C11.S1', 'the sizing loop runs over the scaled weights', lp.site, 'what the loop iterates is computed by array arithmetic / was not traced: %s' % fmt(wsrc)[:80])
+            continue
         ok = wsrc == V('weights') or (wsrc[0] == 'comp' and wsrc[1] == 'dict') or any(wsrc in sm.get('result_locs', ()) for sm in slots)
         ctx.require(ok, 'C11.S1', 'the sizing loop runs over the scaled weights', lp.site, fmt(wsrc)[:100], key='C11.S1|loop-source')
     for p in ps:
